@@ -12,7 +12,7 @@ from ..dataflow import Def
 from ..fold import Folder, RegexConst, single_class
 from ..loader import AnalysisError, FuncInfo, dotted, norm
 from ..report import Ctx
-from ._c14_helpers import J_, JOIN, T_, X_, Atom, Nulls, Prov, Summary, Unit, ancestor_conds, empty_test, helper_atoms, implied, join_kind, nested_defs, own_nodes, parse_atom, position
+from ._c14_helpers import J_, JOIN, T_, X_, Atom, Nulls, Prov, Summary, Unit, ancestor_conds, const_fact, empty_test, harmless_const, helper_atoms, implied, join_kind, nested_defs, own_nodes, parse_atom, position
 
 LEVEL_TEXT = (
     "Static decision of structural clauses of C14 on /repo's current source (POSIX path semantics). (R14.1) in "
@@ -30,7 +30,16 @@ LEVEL_TEXT = (
     "incrementally (`r = join(r, x)`) or as the whole sequence (`join(directory, *components)`) after a completed "
     "check of every component - a checking traversal that can only be left through its exhausted head, or an "
     "any(...) / all(...) test over the sequence; a reject edge may reach `return None` through a flag set on it and "
-    "tested later (constants are propagated along the path). Steps of the iteration may live in module-level helpers: a "
+    "tested later (constants are propagated along the path). Where no single reject test stands in front of a place at "
+    "which a value enters the result, that place is decided under the facts of each path of the iteration that reaches "
+    "it: equality / membership / emptiness guards (`x == ''`, `not x`, `len(x) == 0`, `x in ('', '.')`) pin a value to "
+    "finitely many constants on one edge and exclude them on the other, copies share the fact, a constant assignment "
+    "makes one, any other binding forgets it; a path is settled when it crosses the pass edge of a covering reject "
+    "test, when the value that arrives is pinned to constants none of which has the shape (a constant is judged as "
+    "it is joined: no leading '/', no '..' segment, no separator character), or when it is known from the holding edge "
+    "of a startswith test to begin with a prefix no string of the shape begins with; a literal string appended "
+    "directly is judged the same way; only the tests whose reject edge never reaches that place owe the `return None`. "
+    "Steps of the iteration may live in module-level helpers: a "
     "normaliser (returns normpath of its argument, the empty string excepted, on every path) counts as the normpath "
     "step; a component filter (returns None or its argument) is judged like one iteration - the four shapes before "
     "each `return <component>`, reject edges ending in its `return None` - and the caller must test its result for "
@@ -53,17 +62,26 @@ LEVEL_TEXT = (
     "its standing only while it is copied, selected or joined by os.path.join / posixpath.join with trusted operands: "
     "any other call, method call, concatenation, formatting or slicing applied to it AFTER the containment check "
     "(unquote, normpath, expandvars, replace ...) may re-open the escape and makes the value untrusted for every sink "
-    "it reaches. (R14.3) the None of a refusing safe_join call never arrives where the result is used as a value: for "
+    "it reaches. A list / tuple display merely holds its elements: indexing it, iterating over it or spreading it with "
+    "`*` into os.path.join gives the held values back, and whatever is put into it in place (append / insert / extend / "
+    "item or slice store, anywhere in the function) is part of what it holds. A function defined locally and only ever "
+    "called by its name is followed like a module-level helper (parameters = what the calls pass). A filesystem "
+    "function used as a value (a table of probes) makes the sinks un-enumerable (analysis error). (R14.3) the None of a refusing safe_join call never arrives where the result is used as a value: for "
     "every use, every path from a definition that may hold the None (through copies, conditional arms, walrus "
     "bindings, a helper that hands the result or its refusal on, a parameter a caller binds to it) passes the "
     "not-None edge of a test about that value - `is None` / `is not None` / truthiness / isinstance, merged or split "
     "conditions, a flag computed from it, a conditional expression or `x is not None and f(x)` around the use, a test "
     "of the copied original - and the None edge of each such test ends (while the variable stays None) in NotFound / "
-    "a returned None / (None, None), also when that value or exception was bound to a name first; "
+    "a returned None / (None, None), also when that value or exception was bound to a name first, when a `raise E` "
+    "inside a try is translated by the `except E` clause of that try, or - for a candidate taken from a list of "
+    "candidates in a loop - in turning to the next candidate (a return whose value is read out of a local container "
+    "is not understood: analysis error); "
     "SharedDataMiddleware calls the opener that came out of a loader only where it cannot be None (also when the call "
     "sits in a followed helper that received it) and the None edge of the deciding test falls through to the "
     "wrapped app. (R14.4) the value returned by utils.secure_filename has passed a character filter - a regex "
-    "substitution (method or re.sub spelling) or a `''.join(ch for ch in x if <keep>)` comprehension - whose kept "
+    "substitution (method or re.sub spelling), applied to the whole string or to every piece of its split, or a "
+    "`''.join(ch for ch in x if <keep>)` comprehension (inline or bound to a local; keep conditions: regex match, "
+    "membership in a constant, str character-class methods, and / or / not of these) - whose kept "
     "alphabet is ASCII without '/', '\\\\' and whitespace, and a strip() of a set containing '.' is applied after every "
     "operation that can delete characters; later edits only add non-dot leading characters from that alphabet. Not "
     "decided: posixpath.normpath's contract ('..' survives only as leading segments - trusted), symlinks, Windows "
@@ -282,6 +300,7 @@ class _SafeJoin:
         self.none_rets = [n for n in (self.cfg.node_of(r) for r in astq.returns_of(self.fn) if r.value is None or astq.is_none(r.value)) if n is not None]
         self.n_atoms = self.n_shapes = self.n_join = self.n_growth = 0
         self._pass_atoms: dict[int, tuple[list[Atom], list[str], list[str]]] = {}
+        self._pass_blind: dict[int, list[Node]] = {}  # tests on the component that could not be interpreted
 
     # -- values ----------------------------------------------------------------
     def trusted_dir(self, e: ast.AST, node: Node | None, depth: int = 0) -> bool:
@@ -294,6 +313,8 @@ class _SafeJoin:
             return all(self.trusted_dir(v, node, depth + 1) for v in e.values)
         if isinstance(e, ast.IfExp):
             return self.trusted_dir(e.body, node, depth + 1) and self.trusted_dir(e.orelse, node, depth + 1)
+        if isinstance(e, ast.Call) and len(e.args) == 1 and not e.keywords and self.u.resolve(e.func) in ("os.fspath", "builtins.str"):
+            return self.trusted_dir(e.args[0], node, depth + 1)  # the same text
         if isinstance(e, ast.Name):
             defs = self.rd.reaching(node, e.id)
             if not defs:
@@ -350,6 +371,15 @@ class _SafeJoin:
             return None
         if isinstance(e, ast.Call) and not e.keywords and len(e.args) == 1 and self.u.resolve(e.func) in ("builtins.list", "builtins.tuple", "builtins.iter"):
             return self.seq_of(e.args[0], node, depth + 1)
+        if isinstance(e, ast.Call) and not e.keywords and len(e.args) == 2 and self.u.resolve(e.func) == "builtins.map" and not any(isinstance(a, ast.Starred) for a in e.args):
+            # map(f, S): element by element, like the comprehension (f(x) for x in S)
+            inner = self.seq_of(e.args[1], node, depth + 1)
+            probe = ast.Call(func=e.args[0], args=[ast.Name(id="x", ctx=ast.Load())], keywords=[])
+            if inner is not None and self.u.resolve(e.args[0]) in ("builtins.str", "os.fspath"):
+                return inner._replace(text=norm(e)[:70])
+            if inner is not None and _is_normaliser(self.u, probe):
+                return _Seq(inner.all, True, norm(e)[:70])
+            return None
         if isinstance(e, (ast.ListComp, ast.GeneratorExp)) and len(e.generators) == 1 and isinstance(e.generators[0].target, ast.Name) and not e.generators[0].is_async:
             g = e.generators[0]
             inner = self.seq_of(g.iter, node, depth + 1)
@@ -411,11 +441,13 @@ class _SafeJoin:
                 continue
             cands, complete = _atoms_of_test(self.ctx, u, tn, p.head)
             if cands is None:
-                if any(isinstance(x, ast.Name) and isinstance(x.ctx, ast.Load) and 0 < len(_roots(u, x.id, tn)[0]) and _roots(u, x.id, tn)[0] <= p.roots for x in ast.walk(tn.ast)):
+                if const_fact(u, tn.ast) is None and any(isinstance(x, ast.Name) and isinstance(x.ctx, ast.Load) and 0 < len(_roots(u, x.id, tn)[0]) and _roots(u, x.id, tn)[0] <= p.roots for x in ast.walk(tn.ast)):
                     unknown.append(norm(tn.ast))
+                    self._pass_blind.setdefault(id(p.loop), []).append(tn)
                 continue
             if not complete:
                 unknown.append(norm(tn.ast))
+                self._pass_blind.setdefault(id(p.loop), []).append(tn)
             for kind, consts, lab, var, text, en in cands:
                 roots, norms, raw = _roots(u, var.id, en)
                 if len(roots) != 1 or not roots <= p.roots:
@@ -473,26 +505,48 @@ class _SafeJoin:
         return True
 
     # -- obligations ------------------------------------------------------------------
-    def shapes_in_pass(self, p: _Pass, sn: Node, site: ast.AST, w_roots: set[Def] | None, where: str) -> None:
+    def shapes_in_pass(self, p: _Pass, sn: Node, site: ast.AST, w_roots: set[Def] | None, where: str, arg: ast.AST | None = None) -> None:
         """the four escaping shapes are rejected on every path of the iteration that reaches `sn` (the place where the
-        component enters the result; the loop head itself for a pure checking traversal)."""
+        component enters the result; the loop head itself for a pure checking traversal).  `arg`: the expression
+        whose value enters the result there (decides the value class of the site: see `by_value_class`)."""
         u, cfg, ctx, fi = self.u, self.cfg, self.ctx, self.fi
         atoms, unknown, rawtests = self.atoms_of_pass(p)
         starts = cfg.succ(p.head, "T") if p.head.kind == "loop" else [x for x, _ in p.head.succs]
+        stops = [p.head] + ([sn] if sn is not p.head else [])
         for what, desc, need_norm in self.SHAPES:
             cover = [a for a in atoms if a.covers(what)]
             guarding = []
+            usable_ = []
             for a in cover:
                 dom = sn.id not in cfg.reach(starts, avoid_edges=[(a.node, a.passlabel)])
                 same = w_roots is None or _roots(u, a.var.id, a.evalnode)[0] == w_roots
-                if dom and same and (a.normal or not need_norm):
-                    guarding.append(a)
+                if same and (a.normal or not need_norm):
+                    usable_.append(a)
+                    if dom:
+                        guarding.append(a)
             cross = [] if guarding or p.head.kind != "loop" else self.cross_guards(what, need_norm, p.head, exclude=p)
-            ok = bool(guarding or cross)
+            classes: list[str] | None = None
+            if not guarding and not cross and arg is not None and sn is not p.head:
+                # no single test stands before this site on every path: decide the site under the facts of each
+                # path that reaches it (constants pinned by equality guards, reject tests passed on the way)
+                hints = [a for a in atoms if a.kind == "prefix" and a.evalnode is a.node and (a.normal or not need_norm) and (w_roots is None or _roots(u, a.var.id, a.evalnode)[0] == w_roots)]
+                classes = self.by_value_class(p, sn, arg, starts, usable_, what, hints)
+                if classes is not None:
+                    # the tests that finally turn a component away (their reject edge never comes to this site)
+                    # owe the `return None`; a test whose reject edge goes on to further tests is only a case split
+                    guarding = [
+                        a for a in usable_
+                        if sn.id in cfg.reach(cfg.succ(a.node, a.passlabel), avoid_nodes=[p.head]) and sn.id not in cfg.reach(cfg.succ(a.node, a.reject), avoid_nodes=[p.head])
+                    ]
+            ok = bool(guarding or cross or classes is not None)
             self.n_shapes += 1
-            if not ok and unknown and not cover:
+            blind = [tn for tn in self._pass_blind.get(id(p.loop), []) if sn.id in cfg.reach([tn], avoid_nodes=[p.head])]
+            if not ok and unknown and (not cover or blind):
+                # a test about the component that was not understood stands before this place: it may be the guard
                 raise AnalysisError(f"safe_join: cannot interpret test(s) {unknown} on the component; shape '{what}' undecided")
-            if guarding:
+            if classes is not None:
+                fact = f"decided per path to {where}: " + (f"where no reject test has been passed the value is one of / begins with {', '.join(classes)}, which excludes a value that {desc}" if classes else "every path passes a reject test") + (f"; the other paths pass {[a.text for a in guarding]}" if guarding else "")
+            elif guarding:
                 fact = f"rejected by {[a.text for a in guarding]} on {'the normalised ' if guarding[0].normal else ''}`{guarding[0].var.id}` before {where}"
             elif cross:
                 fact = f"rejected by an earlier check of every component: {cross} before {where}"
@@ -504,8 +558,106 @@ class _SafeJoin:
                 )
             ctx.ob("R14.1", f"a normalised component that {desc} is never appended", ok, fact, fi, cover[0].node.ast if cover else site, f"safe_join reject {what}")
             for a in guarding:
-                okr = self.refuses(a.node, a.reject, [p.head] + ([sn] if sn is not p.head else []))
+                okr = self.refuses(a.node, a.reject, stops)
                 ctx.ob("R14.1", f"the reject edge of `{a.text}` ends in `return None`", okr, "every path from the edge reaches `return None`" if okr else "a path from the reject edge continues the loop, raises or returns a path", fi, a.node.ast, f"safe_join refuse {what} {a.kind}")
+
+    def by_value_class(self, p: _Pass, sn: Node, arg: ast.AST, starts: list[Node], tests: list[Atom], what: str, hints: t.Sequence[Atom] = ()) -> list[str] | None:
+        """the obligation of a place where a value enters the result is about the *values* that can arrive there, not
+        about the tests in front of it: walk every path of one iteration from its start to `sn`, carrying what the
+        path says about the values held by local names - `x == c` / `x in (c1, c2)` / emptiness guards pin a value to
+        finitely many constants on one edge and exclude them on the other, `y = x` makes y hold the same value (a
+        fact learnt about either afterwards holds for both), `y = "c"` makes a constant, any other binding a new
+        unknown value.  A path is settled when it crosses the pass edge of a reject test that covers the shape
+        (`tests`: there the value does not have it), or arrives at `sn` with every alternative of `arg` pinned to
+        constants that do not have the shape - or known, from the holding edge of a startswith test (`hints`), to
+        begin with a prefix no string of the shape begins with.  -> the constants / prefixes met at `sn` (sorted)
+        when every path is settled, None when one is not."""
+        cfg, rd, u = self.cfg, self.rd, self.u
+        settle = {(a.node.id, a.passlabel) for a in tests}
+        begins = {(a.node.id, a.reject): a for a in hints}
+        arms = _selected_arms(arg)
+        if arms is None:
+            return None
+        ends = {cfg.exit.id, cfg.raise_exit.id}
+        met: set[str] = set()
+        State = tuple[tuple[tuple[str, str], ...], tuple[tuple[str, tuple[str, ...]], ...]]
+        stack: list[tuple[Node, State]] = [(s, ((), ())) for s in starts]
+        seen: set[tuple[int, State]] = set()
+
+        def tok(names: dict[str, str], name: str) -> str:
+            return names.get(name, "0:" + name)  # "0:x": the value x holds when the iteration starts
+
+        while stack:
+            n, st = stack.pop()
+            if (n.id, st) in seen:
+                continue
+            seen.add((n.id, st))
+            if len(seen) > 20000:
+                raise AnalysisError(f"safe_join: too many path states while deciding `{norm(arg)[:40]}` per path")
+            names, facts = dict(st[0]), dict(st[1])
+            if n is sn:
+                for a in arms:
+                    cs = (a.value,) if isinstance(a, ast.Constant) else facts.get(tok(names, a.id))
+                    if cs is not None and all(harmless_const(c, what) for c in cs):
+                        met.update(repr(c) for c in cs)
+                        continue
+                    pre = facts.get(tok(names, a.id) + "^") if isinstance(a, ast.Name) and cs is None else None
+                    if pre is not None and all(_prefix_excludes(q, what) for q in pre):
+                        met.update(f"{q!r}..." for q in pre)
+                        continue
+                    return None
+                continue
+            if n is p.head or n.id in ends:
+                continue
+            names0, facts0 = dict(names), dict(facts)
+            for d in rd.gen[n.id]:
+                v = d.value
+                if d.kind in ("assign", "walrus") and d.index is None and isinstance(v, ast.Name):
+                    names[d.name] = tok(names0, v.id)
+                    continue
+                new = f"{n.id}:{d.name}"
+                for other, tk in list(names.items()):
+                    if tk == new and other != d.name:
+                        names[other] = "!"  # held the value of an earlier execution of this binding: unknown for good
+                facts.pop(new, None)
+                facts.pop(new + "^", None)
+                if d.kind in ("assign", "walrus") and d.index is None and isinstance(v, ast.Constant) and isinstance(v.value, str):
+                    facts[new] = (v.value,)
+                names[d.name] = new
+            fact = const_fact(u, n.ast) if n.kind == "test" and n.ast is not None else None
+            for s2, lab in n.succs:
+                if (n.id, lab) in settle:
+                    continue
+                nm2, f2 = names, facts
+                if lab == "exc":
+                    # the bindings of this node may not have happened: keep what is the same either way
+                    nm2 = {k: v for k, v in names.items() if names0.get(k, "0:" + k) == v}
+                    for k in names:
+                        if k not in nm2:
+                            nm2[k] = "!"
+                    f2 = {k: v for k, v in facts.items() if facts0.get(k) == v}
+                elif fact is not None and lab in ("T", "F"):
+                    name, consts, holds = fact
+                    tk = tok(names, name)
+                    if tk != "!":
+                        cur = facts.get(tk)
+                        if lab == holds:
+                            now = consts if cur is None else tuple(c for c in cur if c in consts)
+                        else:
+                            now = None if cur is None else tuple(c for c in cur if c not in consts)
+                        if now is not None and not now:
+                            continue  # no value takes this edge on this path
+                        f2 = dict(facts)
+                        if now is None:
+                            f2.pop(tk, None)
+                        else:
+                            f2[tk] = tuple(sorted(set(now)))
+                h = begins.get((n.id, lab))
+                if h is not None and tok(nm2, h.var.id) != "!":
+                    f2 = dict(f2)
+                    f2[tok(nm2, h.var.id) + "^"] = tuple(sorted(h.consts))
+                stack.append((s2, (tuple(sorted(nm2.items())), tuple(sorted(f2.items())))))
+        return sorted(met)
 
     def cross_guards(self, what: str, need_norm: bool, target: Node, exclude: _Pass | None = None) -> list[str]:
         """checks of *every* component that are complete before `target` is reached: a checking traversal whose every
@@ -616,7 +768,7 @@ class _SafeJoin:
             return False
         p = _Pass(h.node, sub.cfg.entry, _Seq(True, False, pos[0].arg), frozenset([pdef]))  # type: ignore[arg-type]
         for r, rn in sites:
-            sub.shapes_in_pass(p, rn, r, {pdef}, f"`{norm(r)}` in {h.qualname}")
+            sub.shapes_in_pass(p, rn, r, {pdef}, f"`{norm(r)}` in {h.qualname}", r.value)
         self.n_shapes += sub.n_shapes
         self.n_atoms += sub.n_atoms
         self._filters[id(h.node)] = True
@@ -676,8 +828,13 @@ class _SafeJoin:
                 work += list(rd.reaching(d.node, nm.id))
                 continue
             v = d.value
+            if isinstance(v, ast.Call) and len(v.args) == 1 and not v.keywords and self.u.resolve(v.func) in ("builtins.list", "collections.deque") and isinstance(v.args[0], (ast.List, ast.Tuple)):
+                v = ast.List(elts=v.args[0].elts, ctx=ast.Load())  # list((directory,)) / deque([directory])
             if d.kind == "assign" and d.index is None and d.node is not None and isinstance(v, ast.List):
                 okd = all(self.trusted_dir(e, d.node) for e in v.elts) and bool(v.elts) == with_dir
+                if not okd and v.elts and bool(v.elts) == with_dir and not any(isinstance(x, ast.Name) and (x.id == self.vararg or (x.id != self.dirparam and self.u._is_local(x.id) and not self.trusted_dir(x, d.node))) for e in v.elts for x in ast.walk(e)):
+                    # built from the directory parameter and constants only, by an operation that is not modelled
+                    raise AnalysisError(f"safe_join: cannot interpret the initial contents `{norm(d.stmt)[:70]}` of the joined list (derived from the trusted directory by an unknown operation)")
             elif d.kind == "assign" and d.index is None and d.node is not None and v is not None and with_dir:
                 okd = self.trusted_dir(v, d.node)
             else:
@@ -687,9 +844,17 @@ class _SafeJoin:
         ctx.floor("R14.1", "append sites of the joined list", len(sites), 1)
         for site, arg in sites:
             sn = cfg.node_of(site)
-            names_ = _selected_names(arg) if arg is not None else None
-            if names_ is None or sn is None:
+            arms_ = _selected_arms(arg) if arg is not None else None
+            if arms_ is None or sn is None:
                 raise AnalysisError(f"safe_join: cannot interpret list growth `{norm(site)[:80]}` (expected one component added per step)")
+            names_ = [a for a in arms_ if isinstance(a, ast.Name)]
+            for c in (a for a in arms_ if isinstance(a, ast.Constant)):
+                # a literal component: judged on its text (it is what it is on every path)
+                bad = [desc for what, desc, _nn in self.SHAPES if not harmless_const(c.value, what)]
+                self.n_shapes += 1
+                ctx.ob("R14.1", "a constant that enters the result has none of the escaping shapes", not bad, f"`{norm(site)[:60]}`: the constant {c.value!r}" + (f" {' / '.join(bad)}" if bad else " does not start with '/', has no '..' segment and no separator character"), fi, site, f"safe_join appended constant {c.value!r}")
+            if not names_:
+                continue
             loop = astq.enclosing(site, (ast.For, ast.AsyncFor, ast.While))
             if isinstance(loop, ast.While):
                 raise AnalysisError(f"safe_join: cannot interpret the while loop around `{norm(site)[:60]}` as a traversal of the components")
@@ -708,7 +873,7 @@ class _SafeJoin:
                 ctx.ob("R14.1", "the appended value is the loop's component (raw or normalised)", True, f"`{norm(site)[:70]}`: `{arg.id}` is what a component filter helper returned for the loop's component", fi, site, "safe_join appended value origin")
                 continue
             ctx.ob("R14.1", "the appended value is the loop's component (raw or normalised)", okw, f"`{norm(site)[:70]}`: `{norm(arg)[:40]}` originates from {sorted(_ddesc(d) for d in w_roots)}", fi, site, "safe_join appended value origin")
-            self.shapes_in_pass(p, sn, site, w_roots, f"`{norm(site)[:60]}`")
+            self.shapes_in_pass(p, sn, site, w_roots, f"`{norm(site)[:60]}`", arg)
 
     def run(self) -> None:
         u, cfg, ctx, fi, fn = self.u, self.cfg, self.ctx, self.fi, self.fn
@@ -740,6 +905,10 @@ class _SafeJoin:
             is_join = isinstance(v, ast.Call) and u.resolve(v.func) in JOIN and not v.keywords and bool(v.args)
             is_strjoin = isinstance(v, ast.Call) and isinstance(v.func, ast.Attribute) and v.func.attr == "join" and isinstance(v.func.value, ast.Constant) and v.func.value.value == "/" and len(v.args) == 1 and not v.keywords
             if not (is_join or is_strjoin):
+                if isinstance(v, ast.Call) and not any(isinstance(x, ast.Name) and x.id == self.vararg for x in ast.walk(v)):
+                    # some other way of assembling the path (PurePosixPath(*parts), reduce(join, parts), ...): what
+                    # it does with the collected components is not known
+                    raise AnalysisError(f"safe_join: cannot interpret how `{norm(v)[:70]}` assembles the returned path")
                 ctx.ob("R14.1", what, False, norm(v), fi, r, cons)
                 continue
             assert isinstance(v, ast.Call)
@@ -788,16 +957,28 @@ class _SafeJoin:
         ctx.note(f"R14.1: {self.n_atoms} reject test(s) on the component interpreted")
 
 
-def _selected_names(e: ast.AST) -> list[ast.Name] | None:
-    """the names one of which is the value of e: a name, or a conditional expression / and-or chain of such."""
-    if isinstance(e, ast.Name):
+def _prefix_excludes(q: str, what: str) -> bool:
+    """no string that begins with `q` has the escaping shape `what`."""
+    if what == "abs":
+        return q != "" and not q.startswith("/")
+    if what == "dotdot":
+        return not "..".startswith(q)
+    if what == "dotdot/":
+        return not ("../".startswith(q) or q.startswith("../"))
+    return False
+
+
+def _selected_arms(e: ast.AST) -> list[ast.Name | ast.Constant] | None:
+    """the alternatives one of which is the value of e: a name or a string constant, or a conditional expression /
+    and-or chain of such."""
+    if isinstance(e, ast.Name) or (isinstance(e, ast.Constant) and isinstance(e.value, str)):
         return [e]
     arms = [e.body, e.orelse] if isinstance(e, ast.IfExp) else list(e.values) if isinstance(e, ast.BoolOp) else None
     if arms is None:
         return None
-    out: list[ast.Name] = []
+    out: list[ast.Name | ast.Constant] = []
     for a in arms:
-        sub = _selected_names(a)
+        sub = _selected_arms(a)
         if sub is None:
             return None
         out += sub
@@ -878,10 +1059,77 @@ def _implied(ctx: Ctx, u: Unit, e: ast.AST, v: bool, at: Node):
     return [c for c in cands if (c[2] == "T") == v], complete
 
 
+def _predicate_table(u: Unit, e: ast.AST, at: Node) -> list[ast.AST] | None:
+    """`any(check(x) for check in (f, g, lambda n: ...))` - an or-chain written as a table of predicates - unrolled
+    into the conditions f(x), g(x), <lambda body with n := x>; None when e is not of that form."""
+    if not (isinstance(e, ast.Call) and u.resolve(e.func) == "builtins.any" and len(e.args) == 1 and not e.keywords and isinstance(e.args[0], (ast.GeneratorExp, ast.ListComp))):
+        return None
+    g = e.args[0]
+    if len(g.generators) != 1 or g.generators[0].ifs or not isinstance(g.generators[0].target, ast.Name):
+        return None
+    var = g.generators[0].target.id
+    c = g.elt
+    if not (isinstance(c, ast.Call) and astq.is_name(c.func, var) and len(c.args) == 1 and not c.keywords and isinstance(c.args[0], ast.Name)):
+        return None
+    table: ast.AST | None = g.generators[0].iter
+    if isinstance(table, ast.Name):
+        defs = u.rd.reaching(at, table.id)
+        d = next(iter(defs)) if len(defs) == 1 else None
+        if d is not None and d.kind == "assign" and d.index is None:
+            table = d.value
+        elif not defs and not u._is_local(table.id):
+            vals = u.module.assigns.get(table.id) or []
+            table = vals[0] if len(vals) == 1 else None
+        else:
+            table = None
+    if not isinstance(table, (ast.Tuple, ast.List)) or not table.elts:
+        return None
+    x = c.args[0]
+    out: list[ast.AST] = []
+    for f in table.elts:
+        if isinstance(f, ast.Lambda):
+            a = f.args
+            if len(a.args) != 1 or a.posonlyargs or a.kwonlyargs or a.vararg or a.kwarg or a.defaults:
+                return None
+            out.append(_subst(f.body, a.args[0].arg, x))
+        elif isinstance(f, (ast.Name, ast.Attribute)):
+            out.append(ast.copy_location(ast.Call(func=f, args=[x], keywords=[]), c))
+        else:
+            return None
+    return out
+
+
+def _subst(body: ast.AST, param: str, arg: ast.Name) -> ast.AST:
+    """a copy of the lambda body in which the parameter is replaced by the argument name (the call site's own Name
+    node, so that its reaching definitions are those of the call site)."""
+
+    def clone(n: t.Any) -> t.Any:
+        if isinstance(n, list):
+            return [clone(x) for x in n]
+        if not isinstance(n, ast.AST):
+            return n
+        if isinstance(n, ast.Name) and n.id == param and isinstance(n.ctx, ast.Load):
+            return arg
+        if isinstance(n, ast.Lambda):
+            return n  # an inner lambda may rebind the name: left alone
+        new = type(n)(**{f: clone(getattr(n, f, None)) for f in n._fields})
+        return ast.copy_location(new, n) if hasattr(n, "lineno") else new
+
+    return clone(body)
+
+
 def _leaf_atoms(ctx: Ctx, u: Unit, e: ast.AST, at: Node):
     p = parse_atom(u, e)
     if p is not None:
         return [(p[0], p[1], p[2], p[3], norm(e), at)], True
+    tab = _predicate_table(u, e, at)
+    if tab is not None:
+        out, complete = [], True
+        for x in tab:
+            cands, comp = _implied(ctx, u, x, True, at)  # each predicate that holds makes any(...) true
+            complete = complete and comp
+            out += cands
+        return (out or None), complete
     if isinstance(e, ast.Call) and isinstance(e.func, ast.Name) and e.args and not e.keywords and not any(isinstance(a, ast.Starred) for a in e.args):
         h = u.module.functions.get(e.func.id)
         pos = [x.arg for x in h.node.args.posonlyargs + h.node.args.args] if h is not None else []
@@ -959,10 +1207,52 @@ class _Flow:
                 return tg[0], tg[1], inner
         return None
 
+    def local_helper(self, u: Unit, f: ast.AST) -> Unit | None:
+        """a function defined inside `u` (or an enclosing unit) that is only ever *called* there by its name: then
+        its parameters are what those calls pass, not request data handed to an escaping callable."""
+        if not isinstance(f, ast.Name):
+            return None
+        host: Unit | None = u
+        while host is not None:
+            nd = next((d for d in nested_defs(host.node) if d.name == f.id and astq.enclosing(d, (ast.FunctionDef, ast.AsyncFunctionDef, ast.Lambda)) is host.node), None)
+            if nd is not None:
+                break
+            if host._is_local(f.id):
+                return None
+            host = host.enclosing
+        if host is None or nd is None or nd is u.node:
+            return None
+        binds = [d for ds in host.rd.gen.values() for d in ds if d.name == f.id]
+        if len(binds) != 1 or f.id in host.params:
+            return None  # rebound somewhere: which function runs is not known
+        for scope in [x for x in self.units if x is host or self._within(x, host)]:
+            for n in own_nodes(scope.node):
+                if isinstance(n, ast.Name) and n.id == f.id and isinstance(n.ctx, ast.Load):
+                    par = astq.parent(n)
+                    if not (isinstance(par, ast.Call) and par.func is n):
+                        return None  # the function object escapes (returned, stored, passed on)
+        return next((x for x in self.units if x.node is nd), None)
+
+    @staticmethod
+    def _within(x: Unit, host: Unit) -> bool:
+        e = x.enclosing
+        while e is not None:
+            if e is host:
+                return True
+            e = e.enclosing
+        return False
+
     def target_of_func(self, u: Unit, f: ast.AST) -> tuple[FuncInfo, int] | None:
         cls = u.owner.cls
         fi: FuncInfo | None = None
         off = 0
+        lu = self.local_helper(u, f)
+        if lu is not None:
+            if id(lu.node) not in self.by_func:
+                # first sight: its parameters are bound by the local calls only
+                self.by_func[id(lu.node)] = lu
+                lu.param_kind = {p_: T_ for p_ in lu.params}
+            return _LocalFn(lu.node), 0  # type: ignore[return-value]
         if isinstance(f, ast.Attribute) and isinstance(f.value, ast.Name) and cls is not None:
             first = u.owner.params[0] if u.owner.params else None
             if f.value.id == first and "staticmethod" not in u.owner.decorators and f.attr in cls.methods:
@@ -1130,6 +1420,13 @@ class _Flow:
         raise AnalysisError("R14.2: the provenance of helper parameters / results does not reach a fixpoint")
 
 
+class _LocalFn:
+    """stands in for the FuncInfo of a locally defined helper (only the definition node is looked at)."""
+
+    def __init__(self, node: ast.AST):
+        self.node = node
+
+
 def _worse(a: str, b: str) -> bool:
     return join_kind(a, b) == a and a != b
 
@@ -1209,6 +1506,13 @@ def _sinks_rule(ctx: Ctx) -> None:
                 n_sj += 1
                 ok, why = prov.safe(c.args[0] if c.args and not isinstance(c.args[0], ast.Starred) else None, node) if c.args else (False, "no base directory")
                 ctx.ob("R14.2", f"{u.label}: safe_join's base directory is trusted", ok, f"`{norm(c)}`" + (f": {why}" if why else ""), u.owner, c, f"{u.label} safe_join base")
+        # a filesystem function handed around as a value (a table of probes, a default argument) is called somewhere
+        # this rule does not see: the sinks cannot be enumerated
+        for n in own_nodes(u.node):
+            if isinstance(n, (ast.Attribute, ast.Name)) and isinstance(getattr(n, "ctx", None), ast.Load) and u.resolve(n) in SINK_FQ:
+                par = astq.parent(n)
+                if not (isinstance(par, ast.Call) and par.func is n) and not (isinstance(par, ast.Attribute) and par.value is n):
+                    raise AnalysisError(f"{u.label}: the filesystem function `{norm(n)}` is used as a value (`{norm(par)[:60]}`): its call sites cannot be enumerated")
         a, b = _null_rule(ctx, flow, u)
         n_none += a
         n_use += b
@@ -1260,6 +1564,21 @@ def _refusal_nodes(u: Unit, kind: str) -> list[Node]:
             f = _local_value(u, v.func, cn) if isinstance(v, ast.Call) else None
             if isinstance(f, ast.Attribute) and astq.is_self_attr(f, "app"):
                 out.append(cn)
+    return out
+
+
+def _opaque_returns(u: Unit) -> list[Node]:
+    """returns whose value is taken out of a local list / dict (`return found["name"], found["opener"]`): what they
+    hand back depends on what was stored there, which the refusal rule does not track."""
+    out = []
+    for n in own_nodes(u.node, through_lambdas=False):
+        if not isinstance(n, ast.Return) or n.value is None:
+            continue
+        cn = u.cfg.node_of(n)
+        v = _local_value(u, n.value, cn)
+        parts = list(v.elts) if isinstance(v, ast.Tuple) else [v]
+        if cn is not None and any(isinstance(x, ast.Subscript) and isinstance(x.value, ast.Name) and u._is_local(x.value.id) and x.value.id not in u.params for x in parts):
+            out.append(cn)
     return out
 
 
@@ -1319,7 +1638,7 @@ def _null_rule(ctx: Ctx, flow: _Flow, u: Unit) -> tuple[int, int]:
                     continue
                 for tst, arms in ([(e.test, (True, False))] if isinstance(e, ast.IfExp) else [(v, (isinstance(e.op, ast.And),)) for v in e.values[:-1]]):
                     for v in arms:
-                        if any(implied(u, tst, v, nm, en) == "nonnull" and any(d.name == nm and (d in rd.reaching(en, nm) or d.node is en) for d in carriers) for nm in names):
+                        if any(implied(u, tst, v, nm, en) == "nonnull" and any(d.name == nm and (d in rd.reaching(en, nm) or (d.kind == "walrus" and d.node is en and any(x is d.stmt for x in ast.walk(tst)))) for d in carriers) for nm in names):
                             expr_tests.append((e, v))
         if not (src in handed_on and not tests and not expr_tests):  # whoever receives it is obliged instead
             n_tests += len(tests) + len(expr_tests)
@@ -1349,8 +1668,15 @@ def _null_rule(ctx: Ctx, flow: _Flow, u: Unit) -> tuple[int, int]:
             if (tn.id, refuse) in refusals_done:
                 continue
             refusals_done.add((tn.id, refuse))
-            ok = _all_paths_refuse(u, nulls, tn, refuse, var, u.refusal)
-            ctx.ob("R14.3", f"{u.label}: a refused path ends in {want}", ok, f"None edge of `{norm(tn.ast)}`", u.owner, tn.ast, f"{u.label} refusal edge")
+            # a candidate taken from a list of candidates: turning to the next one is how this one is refused
+            heads = [d.node for d in carriers if d.kind == "for" and d.name == var and d.node is not None and d in rd.reaching(tn, var)]
+            goals = _refusal_nodes(u, u.refusal) + heads
+            ok = nulls.none_paths_end_in(tn, refuse, var, goals)
+            if not ok:
+                opaque = _opaque_returns(u)
+                if opaque and nulls.none_paths_end_in(tn, refuse, var, goals + opaque):
+                    raise AnalysisError(f"{u.label}: the None edge of `{norm(tn.ast)}` ends in `{opaque[0].text()[:60]}`, whose value is read out of a local container: cannot decide whether it is the refusal value")
+            ctx.ob("R14.3", f"{u.label}: a refused path ends in {want}" + (" / the next candidate" if heads else ""), ok, f"None edge of `{norm(tn.ast)}`", u.owner, tn.ast, f"{u.label} refusal edge")
         for e, v in expr_tests:
             if (id(e), str(v)) in refusals_done:  # type: ignore[comparison-overlap]
                 continue
@@ -1458,6 +1784,16 @@ def _meet(states: list[St]) -> St:
     return St(all(s.filtered for s in states), all(s.nodot for s in states), lost, any(s.pieces for s in states))
 
 
+_STR_PREDICATES = ("isascii", "isalnum", "isalpha", "isdigit", "isdecimal", "isnumeric", "islower", "isupper", "isspace", "isidentifier", "isprintable")
+_PRED_CACHE: dict[str, set[int]] = {}
+
+
+def _str_predicate_class(name: str) -> set[int]:
+    if name not in _PRED_CACHE:
+        _PRED_CACHE[name] = {c for c in range(0x110000) if getattr(chr(c), name)()}
+    return _PRED_CACHE[name]
+
+
 class _Filename:
     def __init__(self, ctx: Ctx, folder: Folder, fi: FuncInfo, env: dict[str, St] | None = None, depth: int = 0):
         self.ctx = ctx
@@ -1469,6 +1805,7 @@ class _Filename:
         self.subs: list[tuple[ast.Call, str, str, int, set[int], int]] = []  # call, description, name, size of the kept alphabet, kept-but-not-allowed, regex flags
         self.strips: list[tuple[ast.Call, str]] = []
         self.memo: dict[tuple[int, int], St] = {}
+        self.comp: dict[str, St] = {}  # comprehension variables bound to one piece of a split string
         ctx.saw(fi)
 
     def fail(self, e: ast.AST) -> t.NoReturn:
@@ -1476,6 +1813,8 @@ class _Filename:
 
     # -- names ----------------------------------------------------------
     def name(self, e: ast.Name, node: Node | None, depth: int) -> St:
+        if e.id in self.comp:
+            return self.comp[e.id]
         defs = self.u.rd.reaching(node, e.id) if node is not None else frozenset()
         if not defs:
             self.fail(e)
@@ -1516,6 +1855,18 @@ class _Filename:
             return St(x.filtered, x.nodot and from_start, x.lost if from_start else f"slice `{norm(e)}`" if x.nodot or not x.lost else x.lost)
         if isinstance(e, ast.Call):
             return self.call(e, node, depth)
+        if isinstance(e, (ast.ListComp, ast.GeneratorExp)) and len(e.generators) == 1 and isinstance(e.generators[0].target, ast.Name) and not e.generators[0].ifs:
+            # every piece of a split string rewritten on its own: [f(w) for w in x.split()]
+            g = e.generators[0]
+            x = self.val(g.iter, node, depth)
+            if x.pieces and g.target.id not in self.comp:
+                self.comp[g.target.id] = St(x.filtered, x.nodot, x.lost)
+                try:
+                    y = self.val(e.elt, node, depth + 1)
+                finally:
+                    del self.comp[g.target.id]
+                if not y.pieces:
+                    return St(y.filtered, y.nodot, y.lost, True)
         self.fail(e)
 
     def concat(self, parts: list[ast.AST], node: Node | None, depth: int, whole: ast.AST) -> St:
@@ -1583,8 +1934,17 @@ class _Filename:
             if rx is not None:
                 return self.sub(e, rx, rname, e.args[0], e.args[1], len(e.args) > 2 or bool(e.keywords), node, depth)
         # "".join(ch for ch in x if <keep condition on ch>): the comprehension spelling of a deleting substitution
-        if m == "join" and isinstance(f.value, ast.Constant) and f.value.value == "" and len(e.args) == 1 and isinstance(e.args[0], (ast.GeneratorExp, ast.ListComp)):
-            g = e.args[0]
+        comp_arg = e.args[0] if len(e.args) == 1 else None
+        comp_node = node
+        if m == "join" and isinstance(comp_arg, ast.Name) and comp_arg.id not in self.comp and node is not None:
+            # the comprehension bound to a local first: kept = [ch for ch in x if ...]; "".join(kept)
+            ds = self.u.rd.reaching(node, comp_arg.id)
+            d0 = next(iter(ds)) if len(ds) == 1 else None
+            if d0 is not None and d0.kind == "assign" and d0.index is None and isinstance(d0.value, (ast.GeneratorExp, ast.ListComp)) and d0.value.generators[0].ifs:
+                comp_arg, comp_node = d0.value, d0.node
+        if m == "join" and isinstance(f.value, ast.Constant) and f.value.value == "" and len(e.args) == 1 and isinstance(comp_arg, (ast.GeneratorExp, ast.ListComp)) and comp_arg.generators[0].ifs:
+            g = comp_arg
+            node = comp_node
             gen = g.generators[0]
             if len(g.generators) == 1 and isinstance(gen.target, ast.Name) and astq.is_name(g.elt, gen.target.id) and gen.ifs:
                 x = self.val(gen.iter, node, depth)
@@ -1664,6 +2024,17 @@ class _Filename:
         if isinstance(cond, ast.UnaryOp) and isinstance(cond.op, ast.Not):
             k = self.kept(cond.operand, var)
             return None if k is None else set(range(0x110000)) - k
+        if isinstance(cond, ast.BoolOp):
+            ks = [self.kept(v, var) for v in cond.values]
+            if any(k is None for k in ks):
+                return None
+            out = ks[0]
+            for k in ks[1:]:
+                out = out & k if isinstance(cond.op, ast.And) else out | k  # type: ignore[operator]
+            return out
+        if isinstance(cond, ast.Call) and isinstance(cond.func, ast.Attribute) and astq.is_name(cond.func.value, var) and not cond.args and not cond.keywords and cond.func.attr in _STR_PREDICATES:
+            # a character-class method of str, tabulated over all code points (str's own semantics, no werkzeug code)
+            return _str_predicate_class(cond.func.attr)
         if isinstance(cond, ast.Compare) and len(cond.ops) == 1:
             a, op, b = cond.left, cond.ops[0], cond.comparators[0]
             if isinstance(op, (ast.Is, ast.IsNot)) and astq.is_none(b):
